@@ -53,6 +53,28 @@ func c17Stmts(ops []c17Op) []Stmt {
 	return st
 }
 
+// c17WrapperProg routes every operation through one wrapper function per builtin, so the same
+// write/read/exists call site is executed repeatedly with different arguments.
+func c17WrapperProg(ops []c17Op) *Prog {
+	st := []Stmt{
+		FuncDef{Name: "wr", Params: []Param{{"p", TStr}, {"c", TStr}, {"a", TBool}}, Body: []Stmt{Write{Path: Var{"p"}, Data: Var{"c"}, Append: Var{"a"}}}},
+		FuncDef{Name: "rd", Params: []Param{{"p", TStr}}, Rets: []Type{TStr}, Body: []Stmt{Return{Vals: []Expr{ReadE{Path: Var{"p"}}}}}},
+		FuncDef{Name: "ex", Params: []Param{{"p", TStr}}, Rets: []Type{TBool}, Body: []Stmt{Return{Vals: []Expr{ExistsE{Path: Var{"p"}}}}}},
+	}
+	for i, o := range ops {
+		tag := StrLit{V: fmt.Sprintf("op%d", i)}
+		switch o.kind {
+		case "W", "A":
+			st = append(st, ExprStmt{X: Call{Fn: "wr", Args: []Expr{StrLit{V: o.path}, StrLit{V: o.content}, BoolLit{o.kind == "A"}}}})
+		case "R":
+			st = append(st, Print{Args: []Expr{tag, StrLit{V: "S"}, Call{Fn: "rd", Args: []Expr{StrLit{V: o.path}}}, StrLit{V: "E"}}})
+		case "E":
+			st = append(st, Print{Args: []Expr{tag, Call{Fn: "ex", Args: []Expr{StrLit{V: o.path}}}}})
+		}
+	}
+	return &Prog{Stmts: append(st, Print{Args: []Expr{StrLit{V: "done"}}})}
+}
+
 func c17Prog(ops []c17Op, inFunc bool, viaVars bool) *Prog {
 	body := c17Stmts(ops)
 	if viaVars {
@@ -184,6 +206,12 @@ func C17() int {
 		}{{"top", false, false}, {"function", true, false}, {"variables", false, true}} {
 			key := fmt.Sprintf("cell path=%q content=%q ctx=%s", c.path, c.content, ctx.name)
 			if !judge(key, key, c17Prog(ops, ctx.inFunc, ctx.vars)) {
+				ok = false
+			}
+		}
+		{
+			key := fmt.Sprintf("cell path=%q content=%q ctx=wrappers", c.path, c.content)
+			if !judge(key, key, c17WrapperProg(ops)) {
 				ok = false
 			}
 		}
@@ -339,6 +367,7 @@ func C17() int {
 		}
 		name := "history " + strings.Join(parts, " ; ")
 		judge(name, name, c17Prog(h, i%2 == 1, i%3 == 2))
+		judge(name+" [via wrapper functions]", name+" [via wrapper functions]", c17WrapperProg(h))
 		if i%701 == 0 {
 			r.Sample(map[string]string{"kind": "history", "ops": strings.Join(parts, " ; "), "in_function": fmt.Sprint(i%2 == 1), "via_variables": fmt.Sprint(i%3 == 2)})
 		}
